@@ -402,6 +402,7 @@ func (w *CliWorld) start() {
 			STUNServerAddr: "10.0.0.1:3478", TURNServerAddr: "10.0.0.1:3478", Username: "u1", Password: "pw-one", Realm: cfg.Realm,
 			RTO: rto, Conn: cs, LoggerFactory: w.LF,
 			Net: &SimTransport{N: w.Net, Role: "client-data", Owner: "c1", IP4: w.cliAddr.IP, IP6: net.ParseIP("fd00:1::1")},
+			PermissionRefreshInterval: time.Duration(cfg.Extra["perm_refresh_ms"]) * time.Millisecond, // (0: the library's 2 minutes)
 		})
 		if err != nil {
 			Fatalf("NewClient: %v", err)
